@@ -121,8 +121,8 @@ SYN_HOSTS = [".".join(p) for n in (1, 2, 3, 4) for p in itertools.product("xyz",
 
 def check_ruleset(ctx, SuffixTrie, rules, tag="synthetic"):
     t = SuffixTrie()
-    for r in rules:
-        t.add(r)
+    for i, r in enumerate(rules):
+        t.add(r, private=bool((i + len(rules)) % 2))  # the private flag must not change any answer
     ref = PSL(rules)
     excs = {}
     for r in rules:
@@ -190,7 +190,7 @@ def run(ctx):
                     ctx.nontrivial(("b", sp))
                 ctx.cls("directed")
             ctx.sample("directed", {"host": "svc.firenet.ch", "expected": ref.expect("svc.firenet.ch")})
-            for h in ["127.0.0.1", "localhost", "[::1]", "http://[2001:db8::1]:80/x", "localhost:8080"]:
+            for h in ["127.0.0.1", "localhost", "[::1]", "http://[2001:db8::1]:80/x", "localhost:8080", "", "http://", "/just/a/path"]:
                 for name, fn in fns.items():
                     try:
                         got = fn(h)
